@@ -36,6 +36,7 @@
 #include <sched.h>
 #include <unistd.h>
 #include <pthread.h>
+#include <semaphore.h>
 #include <poll.h>
 #include <sys/mman.h>
 #include <urcu/urcu-memb.h>
@@ -105,8 +106,18 @@ static void on_segv(int sig)
 /* ---- shims --------------------------------------------------------------------------------- */
 static int create_fail_at = -1;	/* k-th pthread_create of partition_resize_helper returns EAGAIN */
 static int create_count;
+static volatile int attr_handed_back;	/* section F3: cds_lfht_destroy() returned the caller's thread attributes, the caller destroyed them */
+static volatile int attr_late_creates, attr_late_creates_with_attr;
 static int h_pthread_create(pthread_t *t, const pthread_attr_t *a, void *(*f)(void *), void *arg)
 {
+	if (attr_handed_back) {
+		__atomic_fetch_add(&attr_late_creates, 1, __ATOMIC_SEQ_CST);
+		if (a) {
+			/* the library still uses (its shallow copy of) attributes it has handed back: do not pass freed state on */
+			__atomic_fetch_add(&attr_late_creates_with_attr, 1, __ATOMIC_SEQ_CST);
+			a = NULL;
+		}
+	}
 	if (create_fail_at >= 0 && create_count++ == create_fail_at)
 		return EAGAIN;
 	return pthread_create(t, a, f, arg);
@@ -278,10 +289,17 @@ static void *r_malloc(void *st, size_t size)
 	if (p) reg_add(p, size, 1, 0);
 	return p;
 }
+static volatile int park_big_calloc;	/* section F3: park the resize worker at its first bucket allocation of >= 8192 nodes */
+static sem_t park_reached, park_release;
 static void *r_calloc(void *st, size_t nmemb, size_t size)
 {
 	void *p;
 	(void) st;
+	if (in_mm_alloc && nmemb >= 8192 && park_big_calloc) {
+		park_big_calloc = 0;
+		sem_post(&park_reached);
+		sem_wait(&park_release);
+	}
 	if (!in_mm_alloc && fail_next_calloc) { fail_next_calloc = 0; return NULL; }
 	p = calloc(nmemb, size);
 	if (p) reg_add(p, nmemb * size, nmemb, in_mm_alloc);
@@ -1185,6 +1203,55 @@ static void sec_destroy(int thorough)
 	}
 }
 
+/* Section F3: an AUTO_RESIZE table created with the caller's pthread_attr_t (owning heap state: an affinity mask), destroyed
+ * (empty) while a lazy resize is in flight past its in_progress_destroy test; cds_lfht_destroy() hands the attributes back,
+ * the caller destroys them: helper threads of the in-flight resize must not be created with them any more. */
+static void sec_destroy_attr(void)
+{
+	pthread_attr_t at, *out = NULL;
+	cpu_set_t cs;
+	struct cds_lfht *ht;
+	struct timespec ts;
+	int rc, i;
+	printf("# section F3: destroy hands the caller's thread attributes back while a resize is in flight\n");
+	snprintf(cur_op_buf, sizeof cur_op_buf, "destroy(attr) with a resize in flight");
+	cur_op = cur_op_buf;
+	sem_init(&park_reached, 0, 0); sem_init(&park_release, 0, 0);
+	pthread_attr_init(&at);
+	CPU_ZERO(&cs);
+	for (i = 0; i < 16; i++) CPU_SET(i, &cs);
+	pthread_attr_setaffinity_np(&at, sizeof cs, &cs);
+	quiet = 1;
+	nev = 0; ev_ht = NULL; ev_track_next = 0;
+	ht = _cds_lfht_new_with_alloc(1, 1, 1UL << 16, CDS_LFHT_AUTO_RESIZE, &wrap_mm[0], &wflavor, &rec_alloc, &at);
+	wd_arm(60000);
+	park_big_calloc = 1;
+	cds_lfht_resize_lazy_grow(ht, 1, 15);
+	clock_gettime(CLOCK_REALTIME, &ts); ts.tv_sec += 20;
+	if (sem_timedwait(&park_reached, &ts)) {
+		printf("# f3 inconclusive: the resize worker did not reach a large bucket allocation\n");
+		park_big_calloc = 0;
+	} else {
+		rc = cds_lfht_destroy(ht, &out);
+		if (rc) ORACLE("%s: cds_lfht_destroy returned %d on an empty table", cur_op, rc);
+		if (out != &at) ORACLE("%s: cds_lfht_destroy did not hand back the attributes given at creation", cur_op);
+		pthread_attr_destroy(&at);
+		memset(&at, 0x5a, sizeof at);
+		attr_handed_back = 1;
+		sem_post(&park_release);
+	}
+	urcu_workqueue_flush_queued_work(cds_lfht_workqueue);
+	wd_disarm();
+	if (attr_late_creates_with_attr)
+		ORACLE("%s: %d of %d resize helper threads were created with the thread attributes AFTER cds_lfht_destroy() had handed them back "
+		       "to the caller (who destroyed them)", cur_op, attr_late_creates_with_attr, attr_late_creates);
+	printf("# f3 late_creates=%s with_attr=%d live=%ld\n", attr_late_creates ? "some" : "none", attr_late_creates_with_attr, live_regions);
+	if (live_regions != 0) ORACLE("%s: %ld allocations still live", cur_op, live_regions);
+	attr_handed_back = 0;
+	quiet = 0;
+	quarantine_release();
+}
+
 /* ------------------------------------------------------------------------------------------------
  * Section G: concurrent exploration (oracle only, nothing deterministic is printed but a summary)
  * ---------------------------------------------------------------------------------------------- */
@@ -1334,7 +1401,7 @@ int main(int argc, char **argv)
 	if (!*only || strchr(only, 'A')) { sec_helpers(thorough); sec_mm(thorough); sec_partition(thorough); }
 	if (!*only || strchr(only, 'B')) sec_lazy(thorough);
 	if (!*only || strchr(only, 'D')) sec_big(thorough);
-	if (!*only || strchr(only, 'F')) sec_destroy(thorough);
+	if (!*only || strchr(only, 'F')) { sec_destroy(thorough); sec_destroy_attr(); }
 	if (!*only || strchr(only, 'E')) sec_auto(thorough);
 	if (!*only || strchr(only, 'G')) sec_conc(thorough);
 	if (!*only || strchr(only, 'L')) sec_lostlaunch();
